@@ -28,6 +28,7 @@ check_formula(const Plan& p, const Problem& pr, const RunCfg& rcg, const RunResu
   shared_ptr<target_type> cur(pr.start_image->get_empty_copy());
   shared_ptr<target_type> tmp(pr.start_image->get_empty_copy());
   QuadraticPrior<float> prior(false, (float)rcg.beta);
+  configure_prior(prior, pr, rcg);
   if (rcg.quadratic_prior)
     prior.set_up(cur);
   std::vector<double> lam(pr.start_image->begin_all(), pr.start_image->end_all());
